@@ -107,7 +107,7 @@ func (opts GeneratorOptions) setFields(
 				// a message-typed field may be left unset, unless an option or the
 				// schema says otherwise: NoEmptyLists covers lists of messages too
 				skippable := f.Kind() == protoreflect.MessageKind && !opts.DisallowNilMessages &&
-					!(f.IsList() && opts.NoEmptyLists)
+					!(f.IsList() && opts.NoEmptyLists) && f.Cardinality() != protoreflect.Required
 				if skippable {
 					continue
 				}
